@@ -60,7 +60,7 @@ PROC_LISTS = [[]] + [[["trim"]]] + [[["limit", n]] for n in range(4)] + [[["limi
 # user-supplied processors next to the built-in ones (the documented extension point): "num" numbers every line it is
 # handed (stateful: shows lines fed twice, out of order, or a missing reset), "mark" tags non-empty lines (stateless),
 # "elide" drops lines containing "b" by returning two empty strings (the documented way)
-PROC_LISTS += [[["num"]], [["trim"], ["num"]], [["num"], ["limit", 1]], [["limit", 1], ["num"]], [["mark"], ["trim"]], [["elide"], ["limit", 0]], [["elide"], ["num"], ["trim"]]]
+PROC_LISTS += [[["num"]], [["trim"], ["num"]], [["num"], ["limit", 1]], [["limit", 1], ["num"]], [["mark"], ["trim"]], [["elide"], ["limit", 0]], [["elide"], ["num"], ["trim"]], [["elide"], ["limit", 1]], [["elide"], ["trim"], ["limit", 2]], [["limit", 1], ["elide"]]]
 
 
 def n_cases(tier: str) -> int:
